@@ -24,7 +24,7 @@ PROP = dict(
 )
 META = dict(
     text=("Lean theorems for every program, store and fault oracle: a call either fails leaving the committed store and the event stream untouched, or succeeds with exactly the "
-          "store and events of the fault-free run; events only if committed; failed calls leave no trace in any later history; explicit transactions all-or-nothing at the creator's commit. "
+          "store and events of the fault-free run; events only if committed; failed calls leave no trace in any later history, and a whole history under arbitrary per-call faults has exactly the final store and notification sequence of the fault-free run of its successful calls; explicit transactions all-or-nothing at the creator's commit. "
           "Tied to /repo by (1) kernel-checked obligations over facts regenerated from the sources each run (every write-path error is returned, every read-write transaction is "
           "discarded on all paths and committed once, update events only from commit callbacks) and (2) exhaustive single-fault enumeration on the real code over all storage operation indices of 17 operations."),
     design_ref="DESIGN.md section 8, C05",
